@@ -72,7 +72,10 @@ def parse_arg(arg: str) -> Tuple[int, Optional[str], Optional[int]]:
 
     # === PARSE URL, AND SPLIT PATH SEGMENTS ===
     # `url` looks like a URL, so try to parse it
-    parsed_url = urlparse(url)
+    try:
+        parsed_url = urlparse(url)
+    except ValueError as e:
+        raise InvalidComplibURLError(url, str(e)) from e
     # Naively split the URL path with `/`s.  This is technically wrong because it doesn't handle
     # escaping properly, but we don't worry about that because CompLib URLs shouldn't have any
     # escaped `/`s anyway.
@@ -81,7 +84,8 @@ def parse_arg(arg: str) -> Tuple[int, Optional[str], Optional[int]]:
     # === PARSE COMP ID FROM PATH SEGMENTS ===
     # Check that we have an absolute path, and remove the '' at the front of the list of path
     # segments
-    assert path_segs[0] == ""
+    if path_segs[0] != "":
+        raise InvalidComplibURLError(url, "URL needs a host name followed by an absolute path.")
     path_segs = path_segs[1:]
     # Raise helpful error messages if obvious things are wrong (these errors can't happen if the
     # user used a straight ID)
